@@ -1,5 +1,4 @@
--- imports the model of UriCodec_feasibility.lean (without its `main`)
-import Probe.CodecLib
+import UriCodecLib
 /-! Proof probe for C06: header and cookie parameters never deliver a different value
     (every style/explode/shape the codecs accept for these locations, every byte string),
     except the one known class: an empty array comes back as `[""]` (W3/W4). -/
